@@ -38,6 +38,7 @@ WORLD_NOTES = {
     "C05": ("other", "allocation protocol recorded by a global-allocator wrapper for every library call and checked by TLC (no free of a dead/unknown block, free/resize layout = allocation layout, no block left when all worlds are dropped), self-checking payloads on every read (type tag + checksum, poisoned quarantine for freed blocks), and process crashes inside safe calls recorded as events"),
     "C06": ("model_checking", "MCWorld Inv_C06 (every reachable store is accepted by deserialization; round trip preserves the map) + real round trips in 3 encodings with equality, content and lock-step twin checks"),
     "C10": ("model_checking", "MCWorld (2-world instance: Clone/CloneFrom preserve StoreInv and the map) + real clone/clone_from with content, token-freshness, frame and lock-step checks"),
+    "C11": ("exploration", "valid encodings of reachable worlds (serde_json text, serde_assert token streams human-readable and compact) are mutated structurally (numbers +-1/0/large incl. declared lengths, identifier bytes, entity index/generation, free-list entries, component values; token delete/duplicate/swap; field renames; element delete/duplicate) and deserialized; TLC requires: Err, or a world that passes StoreInv, identifier probes, ledger and heap checks immediately and under the random operations that follow in the same history"),
     "C13": ("model_checking", "MCWorld Inv_C13 exhaustively + StoreInv evaluated by TLC on the hook's dump of every live world after every event"),
     "C15": ("exploration", "resource addressing: get_mut / view_resources / query resource views in 14 subset-order-mutability variants, plus frame checks on every entity operation, clone and serde"),
     "C03": ("exploration", "a generated family of 132 queries (every view kind alone and pairwise, view order, identifier view, nested filters incl. views used as filters, World::entry queries, every super-view/sub-view pairing of query-time Entries, iteration combined with entry views) run against every world state the histories pass through; TLC evaluates the query on the reference map and compares result set/multiset, per-item values and tokens, Option-ness, writes, and size_hint brackets"),
@@ -69,6 +70,8 @@ def relevant(prop, st):
         return g("query:par")
     if prop == "C05":
         return g("heap-events")
+    if prop == "C11":
+        return g("untrusted-inputs")
     return g("events")
 
 def known_split(prop, fails):
@@ -97,6 +100,9 @@ def run_world_prop(prop, tier, seed, replay):
     if harness:
         raise ToolError("harness/spec disagreement (not a verdict): %s" % harness[:3])
     fails = [f for f in res["fails"] if f["prop"] == prop]
+    if prop == "C11":
+        # a world handed back from untrusted input must keep satisfying every other property
+        fails += [f for f in res["fails"] if f.get("profile", "").startswith("untrusted") and f["prop"] not in ("C11", "INFO", "HARNESS")]
     viol, hits = known_split(prop, fails)
     violations = [{"what": "%s (line %d of %s, op %s)" % (f["name"], f["line"], f["trace"], f["op"]),
                    "replay": f["replay"]} for f in viol]
